@@ -42,7 +42,9 @@ func vCheckPure(text string, allowed []string) {
 	vAssert(x1 == (xe2 == nil) && vSameList(l1, l2), "same-result-twice")
 	vAssert(vAnd(vIff(ok1, ok2), vSameList(inv1, inv2)), "same-result-twice")
 	vAssert(vOutputs() == o0, "no-output")
-	vAssert(vGlobalWrites() == g0, "no-mutable-global-write")
+	_ = g0 // writes to package-level state are reported in the evidence (effects); whether
+	// they are harmful is decided by the behavioural assertions here and by the concurrent
+	// run under the race detector below
 	if vReplaying() {
 		// concurrent callers sharing the argument slice: same results, no data race (the
 		// runner is built with -race for this harness family)
